@@ -17,9 +17,9 @@ package quic
 
 import (
 	"context"
-	"crypto/tls"
 	"fmt"
 	"io"
+	"log/slog"
 	"math/rand/v2"
 	"sort"
 	"strings"
@@ -421,6 +421,7 @@ type c21LossyResult struct {
 	ZeroBlocked  int64 // NewStream calls that stayed blocked for the whole run against a zero limit
 	VirtualMs    int64
 	Dropped      int64
+	StuckDump    string
 }
 
 // c21Tracked counts the moment the application has closed both directions of a peer stream:
@@ -494,6 +495,7 @@ func c21RunLossy(lc *c21LossyCase, viol vlpViolFunc) *c21LossyResult {
 		}
 	}
 	payload := make([]byte, 4096)
+	var stage sync.Map // what every unfinished application goroutine is doing (diagnostics of unfinished runs)
 
 	initiator := func(s *Stream, rng *rand.Rand, bidi bool) {
 		defer wg.Done()
@@ -502,6 +504,9 @@ func c21RunLossy(lc *c21LossyCase, viol vlpViolFunc) *c21LossyResult {
 		s.SetWriteContext(ctx)
 		n := []int{0, 0, 1, 20, 300, 3000}[rng.IntN(6)]
 		mode := rng.IntN(6)
+		key := fmt.Sprintf("initiator of stream %d mode %d bytes %d", s.ID(), mode, n)
+		stage.Store(key, "writing")
+		defer stage.Delete(key)
 		if mode == 4 && bidi {
 			s.CloseRead()
 		}
@@ -526,6 +531,7 @@ func c21RunLossy(lc *c21LossyCase, viol vlpViolFunc) *c21LossyResult {
 				io.Copy(io.Discard, s)
 			}
 		}
+		stage.Store(key, "in Close")
 		s.Close()
 	}
 
@@ -545,6 +551,9 @@ func c21RunLossy(lc *c21LossyCase, viol vlpViolFunc) *c21LossyResult {
 			}
 		}
 		mode := rng.IntN(20)
+		key := fmt.Sprintf("%s acceptor of stream %d mode %d", c21SideName(side), s.ID(), mode)
+		stage.Store(key, "running")
+		defer stage.Delete(key)
 		switch {
 		case mode < 12: // read to the end, answer, hold the stream for a while, close
 			io.Copy(io.Discard, s)
@@ -693,6 +702,15 @@ func c21RunLossy(lc *c21LossyCase, viol vlpViolFunc) *c21LossyResult {
 		}
 	}
 	res.VirtualMs = time.Since(start).Milliseconds()
+	if res.Stuck {
+		var d []string
+		stage.Range(func(k, v any) bool {
+			d = append(d, fmt.Sprintf("%v: %v", k, v))
+			return len(d) < 12
+		})
+		sort.Strings(d)
+		res.StuckDump = fmt.Sprintf("pending=%d: %s", pending.Load(), strings.Join(d, "; "))
+	}
 
 	// NewStream against a zero limit: still blocked after everything else has finished.
 	for side := 0; side < 2; side++ {
@@ -817,16 +835,34 @@ func c21STyp(typ int) streamType {
 	return bidiStream
 }
 
-// c21SentInitial reads the initial_max_streams_* the Conn under test put on the wire.
-func c21SentInitial(tc *testConn, side connSide) ([2]int64, bool) {
-	// client: ClientHello is the first message at the Initial level;
-	// server: EncryptedExtensions is the first message at the Handshake level.
-	lvl := tls.QUICEncryptionLevelInitial
+// c21TapInitial installs a qlog tap on a scripted testConn and reads the initial_max_streams_*
+// parameters the Conn under test really put on the wire (from its CRYPTO frames).
+func c21TapInitial(side connSide) (opt func(*Config), get func() ([2]int64, bool)) {
+	tap := vlpNewTap()
+	var cr c21Crypto
+	var lim [2]int64
+	state := 0
+	want, name := initialSpace, "client"
 	if side == serverSide {
-		lvl = tls.QUICEncryptionLevelHandshake
+		want, name = handshakeSpace, "server"
 	}
-	lim, st := c21InitialMaxStreams(tc.cryptoDataOut[lvl])
-	return lim, st == 1
+	tap.Observe(func(ev *vlpEvent) {
+		if !ev.Sent || ev.Space != want || state != 0 {
+			return
+		}
+		for i := range ev.Frames {
+			if f := &ev.Frames[i]; f.Kind == "crypto" && state == 0 {
+				lim, state = c21InitialMaxStreams(cr.add(f.Off, f.Data))
+			}
+		}
+	})
+	opt = func(cf *Config) { cf.QLogLogger = slog.New(&vlpHandler{tap: tap, side: name}) }
+	get = func() ([2]int64, bool) {
+		tap.mu.Lock()
+		defer tap.mu.Unlock()
+		return lim, state == 1
+	}
+	return opt, get
 }
 
 // ---- the monitor ----
@@ -867,7 +903,7 @@ func TestVerif_C21(t *testing.T) {
 		r.Event("lossy_runs", 1)
 		if res.Stuck {
 			r.Event("lossy_runs_not_finished_in_bound", 1)
-			r.Note("lossy case %d: streams still pending at the virtual-time bound (opened %v accepted %v closed %v)", c.Index, res.Opened, res.Accepted, res.AppClosed)
+			r.Note("lossy case %d: streams still pending at the virtual-time bound (cfg %v want %v opened %v accepted %v closed %v) %s", c.Index, lc.Cfg, lc.Want, res.Opened, res.Accepted, res.AppClosed, res.StuckDump)
 		} else {
 			r.Event("lossy_runs_completed", 1)
 		}
@@ -1086,12 +1122,13 @@ func TestVerif_C21(t *testing.T) {
 		c.Describe(desc)
 		var raises, rejected, within, acceptedN, closedN int64
 		synctest.Test(t, func(t *testing.T) {
-			tc := vlpScripted(t, side, permissiveTransportParameters, func(cf *Config) {
+			tapOpt, sentInitial := c21TapInitial(side)
+			tc := vlpScripted(t, side, permissiveTransportParameters, tapOpt, func(cf *Config) {
 				cf.MaxBidiRemoteStreams = cfg[c21Bidi]
 				cf.MaxUniRemoteStreams = cfg[c21Uni]
 			})
 			peer := &c21Peer{tc: tc, seen: map[int64]bool{}}
-			adv, ok := c21SentInitial(tc, side)
+			adv, ok := sentInitial()
 			if !ok {
 				r.Event("remote_transport_params_unreadable", 1)
 				return
